@@ -99,21 +99,22 @@ Definition check_nsat (deltas : list Qc) (nc ns : nat) : bool :=
 (* ---- scripted runs of the real Optimiser.run against the model loop ----
    All Cartesian components of entry i equal sx, all gradient components equal sg, so that
    RMS = max = |.| exactly.  sj counts gradient evaluations, sid is the index of the coordinates. *)
-Record sentry := mkS { sx : Qc; se : Qc; sg : Qc; sj : nat; sid : nat }.
+Record sentry := mkS { sx : Qc; se : Qc; sg : Qc; sj : nat; sid : nat; she : bool (* has an energy *) }.
 Definition q0 : Qc := Q2Qc 0.
 Section Scripted.
 Variables (STP : list bool) (X E G : list Qc) (SAT : list bool).
 Definition s_step (h : list sentry) : option sentry :=
   match h with
   | c :: _ => if nth (sj c - 1) STP true
-              then Some (mkS (nth (length h) X q0) (se c) (sg c) (sj c) (length h))
+              then Some (mkS (nth (length h) X q0) (se c) (sg c) (sj c) (length h) false)
               else None
   | [] => None
   end.
-Definition s_evalg (c : sentry) : sentry := mkS (sx c) (nth (sj c) E q0) (nth (sj c) G q0) (S (sj c)) (sid c).
+Definition s_evalg (c : sentry) : sentry := mkS (sx c) (nth (sj c) E q0) (nth (sj c) G q0) (S (sj c)) (sid c) true.
 Definition s_conv (h : list sentry) : result params :=
   match h with
   | l :: k :: _ =>
+      if negb (she l && she k) then AssertionError else       (* base.py: assert coords_l.e is not None and coords_k.e ... *)
       construct (mkP (Some (Fin (Qcabs (se l - se k)%Qc))) (Some (Fin (Qcabs (sg l)))) (Some (Fin (Qcabs (sg l))))
                      (Some (Fin (Qcabs (sx l - sx k)%Qc))) (Some (Fin (Qcabs (sx l - sx k)%Qc))) false)
   | [l] => construct (mkP (Some PInf) (Some (Fin (Qcabs (sg l)))) (Some (Fin (Qcabs (sg l))))
@@ -121,12 +122,14 @@ Definition s_conv (h : list sentry) : result params :=
   | [] => AssertionError
   end.
 Definition s_nsat (c : sentry) : nat := if nth (sid c) SAT true then 1%nat else 0%nat.
-Definition s_loop (tol : params) (maxiter fuel : nat) : outcome sentry :=
+(* PRE = the optimiser was constructed with `coords=`: the history already holds those (unevaluated) coordinates *)
+Definition s_loop (PRE : bool) (tol : params) (maxiter fuel : nat) : outcome sentry :=
   loop sentry s_step s_evalg (fun c => c) s_conv (fun _ => 1%nat) s_nsat false tol maxiter fuel
-       [s_evalg (mkS (nth 0 X q0) q0 q0 0 0)].
+       (s_evalg (mkS (nth 0 X q0) q0 q0 0 0 false) :: (if PRE then [mkS (nth 0 X q0) q0 q0 0 0 false] else [])).
+
 (* kind: 0 = left the loop, 1 = exception from converged, 2 = more than `fuel` passes *)
-Definition check_scripted (tol : params) (maxiter fuel : nat) (kind it : nat) (flag : result bool) : bool :=
-  let o := s_loop tol maxiter fuel in
+Definition check_scripted (PRE : bool) (tol : params) (maxiter fuel : nat) (kind it : nat) (flag : result bool) : bool :=
+  let o := s_loop PRE tol maxiter fuel in
   Nat.eqb (match o with Done _ _ => 0 | Raised _ _ => 1 | OutOfFuel _ _ => 2 end)%nat kind &&
   Nat.eqb (iteration sentry (final_hist sentry o)) it &&
   rb_eqb (reported sentry s_conv (fun _ => 1%nat) s_nsat false tol o) flag.
